@@ -15,6 +15,15 @@
 // For translator validation the opaque calls are evaluated with the REAL functions at double / float.
 #include <math.h>
 #include "sym.h"
+#include "c10frac.h" // FracS: the real templates at exact fractions (rattv), before any Imath header
+// ImathMatrix.h calls `cos (r)` / `sin (r)` unqualified (Matrix44::rotate, used by Euler::extract): found by ADL for FracS
+namespace symns
+{
+inline FracS cos (FracS a) { return std::cos (a); }
+inline FracS sin (FracS a) { return std::sin (a); }
+inline FracS sqrt (FracS a) { return std::sqrt (a); }
+inline FracS atan2 (FracS a, FracS b) { return std::atan2 (a, b); }
+} // namespace symns
 #include "shapes.h"
 #include "main.h"
 #include <ImathMatrixAlgo.h>
@@ -81,6 +90,34 @@ template <class T, int order> static std::vector<T> nativeReorder (const std::ve
     static int native_reorder_##O = (symns::natives ()["M44.reorderFromXYZ_" #O] = symns::Native{                                  \
         &nativeReorder<double, (int) IMATH_INTERNAL_NAMESPACE::Euler<double>::O>, &nativeReorder<float, (int) IMATH_INTERNAL_NAMESPACE::Euler<float>::O>}, 0);
 C12_ALL_ORDERS (C12_NATIVE_REORDER)
+// the same two callees at exact fractions (real templates at FracS, c10frac.h stubs) for the Lean-side validation
+static std::vector<symns::Frac> fracEulerXYZ (const std::vector<symns::Frac>& a)
+{
+    return symns::fracRun ([&] {
+        using symns::FracS;
+        IMATH_INTERNAL_NAMESPACE::Matrix44<FracS> m;
+        for (int i = 0; i < 4; ++i) for (int j = 0; j < 4; ++j) m.x[i][j] = FracS (a[4 * i + j]);
+        IMATH_INTERNAL_NAMESPACE::Vec3<FracS> r (FracS (0));
+        IMATH_INTERNAL_NAMESPACE::extractEulerXYZ (m, r);
+        return std::vector<FracS>{r.x, r.y, r.z};
+    });
+}
+static int nativeq_eulerXYZ = (symns::natives ()["M44.extractEulerXYZ"].q = &fracEulerXYZ, 0);
+template <int order> static std::vector<symns::Frac> fracReorder (const std::vector<symns::Frac>& a)
+{
+    return symns::fracRun ([&] {
+        using symns::FracS;
+        typedef IMATH_INTERNAL_NAMESPACE::Euler<FracS> E;
+        FracS x0 = FracS (a[0]), x1 = FracS (a[1]), x2 = FracS (a[2]);
+        IMATH_INTERNAL_NAMESPACE::Vec3<FracS> v0 (x0, x1, x2);
+        E src (v0, E::XYZ);
+        E e (src, (typename E::Order) order);
+        return std::vector<FracS>{e.x, e.y, e.z};
+    });
+}
+#define C12_NATIVEQ_REORDER(O) \
+    static int nativeq_reorder_##O = (symns::natives ()["M44.reorderFromXYZ_" #O].q = &fracReorder<(int) IMATH_INTERNAL_NAMESPACE::Euler<double>::O>, 0);
+C12_ALL_ORDERS (C12_NATIVEQ_REORDER)
 
 using namespace IMATH_INTERNAL_NAMESPACE;
 #include "ops_c12e.h"
